@@ -362,18 +362,26 @@ type State struct {
 	iters  map[*IterObj]*IterState
 	trace  []string
 	writes map[string]bool // components written on this path (for frame.modifies)
-	ghostLog []string
+	names  map[string]Val  // "<func>.<var>" -> latest value seen in a DebugRef (source-level names for invariants)
+	ghost  map[string]Sc   // ghost variables of the function under verification
 }
 
 func NewState() *State {
 	return &State{regs: map[ssa.Value]Val{}, mem: map[*Loc]Val{}, arrs: map[*Arr]*ArrContent{}, comps: map[string]string{},
-		iters: map[*IterObj]*IterState{}, writes: map[string]bool{}}
+		iters: map[*IterObj]*IterState{}, writes: map[string]bool{}, names: map[string]Val{}, ghost: map[string]Sc{}}
 }
 
 func (st *State) Clone() *State {
 	n := &State{regs: make(map[ssa.Value]Val, len(st.regs)), mem: make(map[*Loc]Val, len(st.mem)),
 		arrs: make(map[*Arr]*ArrContent, len(st.arrs)), comps: make(map[string]string, len(st.comps)),
-		iters: make(map[*IterObj]*IterState, len(st.iters)), writes: make(map[string]bool, len(st.writes))}
+		iters: make(map[*IterObj]*IterState, len(st.iters)), writes: make(map[string]bool, len(st.writes)), names: make(map[string]Val, len(st.names))}
+	for k, v := range st.names {
+		n.names[k] = v
+	}
+	n.ghost = make(map[string]Sc, len(st.ghost))
+	for k, v := range st.ghost {
+		n.ghost[k] = v
+	}
 	for k, v := range st.regs {
 		n.regs[k] = v
 	}
@@ -395,7 +403,6 @@ func (st *State) Clone() *State {
 	}
 	n.pc = append([]string(nil), st.pc...)
 	n.trace = append([]string(nil), st.trace...)
-	n.ghostLog = append([]string(nil), st.ghostLog...)
 	return n
 }
 
